@@ -36,7 +36,6 @@ CONSTANTS
   NParts = %(nparts)d
   Part = %(part)d
   MaxSteps = 600
-  KnownRepeatOverMapping = %(known_rom)s
   KnownRawTextEscaped = %(known_rte)s
 %(invs)s
 POSTCONDITION WriteCases
@@ -92,7 +91,7 @@ def model_check_part(job):
     """-> (result of TLC, cases, contexts)"""
     cfg = MC_CFG % dict(consts=job["consts_text"], fams=", ".join('"%s"' % f for f in job["fams"]), ctx=job["ctx"],
                         esclen=job.get("esclen", 2), nparts=job["nparts"], part=job["part"],
-                        quick="TRUE" if job["quick"] else "FALSE", known_rom="TRUE" if job["known_rom"] else "FALSE",
+                        quick="TRUE" if job["quick"] else "FALSE",
                         known_rte="TRUE" if job["known_rte"] else "FALSE",
                         invs="\n".join("INVARIANT " + x for x in job["invs"]))
     module = job["module"]
@@ -241,7 +240,7 @@ def load_replay(replay):
 
 def common_job(chk, consts_text, consts, **kw):
     job = dict(consts_text=consts_text, consts=consts, seed=chk.seed, quick=chk.tier == "quick",
-               known_rom=known_flag(chk, "RepeatOverMapping"), known_rte=known_flag(chk, "RawTextEscaped"),
+               known_rte=known_flag(chk, "RawTextEscaped"),
                module="MC_C17", invs=INVS17, trace_module="TraceC17", trace_spec="TSpec", want_tokens=False, esclen=2)
     job.update(kw)
     return job
